@@ -27,7 +27,7 @@ def load_table():
 
 
 def run_engine_a(R, F, groups=('rt',), effects=('alloc', 'free', 'panic', 'block', 'leaf'), loops=True,
-                 rule_prefix='A', config='default'):
+                 rule_prefix='A', config='default', fn_filter=None):
     sinks, sites, loop_tab = load_table()
     A = RtAnalysis(F, list(groups))
     tag = '' if config == 'default' else '@' + config
@@ -48,6 +48,8 @@ def run_engine_a(R, F, groups=('rt',), effects=('alloc', 'free', 'panic', 'block
              'undischarged': 0}
     for o in obs:
         if o['effect'] not in effects:
+            continue
+        if fn_filter is not None and not fn_filter(o['fn']):
             continue
         stats['obligations'] += 1
         rule = '%s.%s' % (rule_prefix, o['effect'])
